@@ -389,6 +389,26 @@ func Sweep(repo, overlayPath string) int {
 		sort.Strings(keys)
 		os.WriteFile(out, []byte(strings.Join(keys, "\n")+"\n"), 0o644)
 	}
+	if out := os.Getenv("MLB_RECORD_SIGS"); out != "" {
+		// the signatures of every function of this tree (tools/gen_sigs.sh, on the confirmed tree)
+		var lines []string
+		for _, f := range prog.Funcs() {
+			if f.Decl == nil || strings.HasSuffix(prog.Fset.Position(f.Decl.Pos()).Filename, "_test.go") {
+				continue
+			}
+			if s, ok := chk.SigOf(f); ok {
+				lines = append(lines, strings.Join([]string{s.Pkg, s.Recv, s.Name, strings.Join(s.PNames, ","), strings.Join(s.PTypes, ";"), strings.Join(s.RTypes, ";")}, "\t"))
+			}
+		}
+		sort.Strings(lines)
+		os.WriteFile(out, []byte(strings.Join(lines, "\n")+"\n"), 0o644)
+		var fl []string
+		for _, f := range chk.FieldsOf(prog) {
+			fl = append(fl, strings.Join([]string{f.Pkg, f.Type, f.Name, f.FType}, "\t"))
+		}
+		sort.Strings(fl)
+		os.WriteFile(out+".fields", []byte(strings.Join(fl, "\n")+"\n"), 0o644)
+	}
 	rc := 0
 	for _, id := range ids {
 		pr := props[id]
